@@ -211,7 +211,7 @@ type c18case struct {
 	ReFlag  bool    `json:"regexp_flag"`
 	Path    string  `json:"path"`
 	Perm    []int   `json:"perm"`
-	Via     string  `json:"via"` // Safety | SafetyFiles | record
+	Via     string  `json:"via"`             // Safety | SafetyFiles | record
 	Chdir   string  `json:"chdir,omitempty"` // the process changes its working directory to this one first
 }
 
